@@ -133,6 +133,14 @@ Definition read_floats (dims : list N) : RD (list f32) :=
   | _ => blowup_guard 65 (loop_cost dims 1) ;;; rd_many (N.to_nat (prodN dims)) rd_float
   end.
 
+Definition read_values (ty : ptype) (dims : list N) : RD (list Z * list f32 * list bstr) :=
+  match ty with
+  | TChar => s <- read_strings dims ;; rret ([], [], s)
+  | TByte => v <- read_ints 1 dims ;; rret (v, [], [])
+  | TInt => v <- read_ints 2 dims ;; rret (v, [], [])
+  | _ => v <- read_floats dims ;; rret ([], v, [])
+  end.
+
 (* next record position: 0 ends the chain *)
 Definition next_pos (off : N) : RD Z :=
   if off =? 0 then rret 0%Z else t <- rd_tell ;; rret (wrap32s (t + Z.of_N off - 2)).
@@ -147,12 +155,7 @@ Definition read_param (nchars : Z) : RD (param * Z) :=
          else if (tb =? 2)%Z then rret TInt else if (tb =? 4)%Z then rret TFloat else rthrow IosFailure) ;;
   nd <- rd_uint 1 ;;
   dims <- (if nd =? 0 then rret [1] else rd_many (N.to_nat nd) (rd_uint 1)) ;;
-  vals <- (match ty with
-           | TChar => s <- read_strings dims ;; rret ([], [], s)
-           | TByte => v <- read_ints 1 dims ;; rret (v, [], [])
-           | TInt => v <- read_ints 2 dims ;; rret (v, [], [])
-           | _ => v <- read_floats dims ;; rret ([], v, [])
-           end) ;;
+  vals <- read_values ty dims ;;
   let '(vi, vf, vs) := vals in
   dl <- rd_uint 1 ;;
   desc <- (if dl =? 0 then rret [] else rd_string (N.to_nat dl)) ;;
